@@ -20,10 +20,17 @@ pub fn build(raw: &Raw, _tier: Tier, _sched: bool) -> Scenario {
     let policy = POLS_MOSTLY_BLOCK[pick(knob(raw, 1), POLS_MOSTLY_BLOCK.len())];
     let ctor = CTORS[pick(knob(raw, 2), 3)].clone();
     let s = b.store("c01", cap, policy, ctor);
-    let nred = 1 + pick(knob(raw, 3), 3);
+    // 0 = a store created without any reducer (`StoreImpl::new` / `without_reducer()`): the chain is empty
+    // until a client adds one at run time
+    let nred = pick(knob(raw, 3), 4);
     let mut reds: Vec<CompId> = (0..nred).map(|_| b.reducer(s)).collect();
     let nmw = pick(knob(raw, 4), 3);
     let mws: Vec<CompId> = (0..nmw).map(|_| b.middleware(s)).collect();
+    if nred == 0 && nmw == 0 {
+        // no callback would ever show what the pipeline does with an action: keep one observer
+        let sub = b.sub(SubKind::Direct);
+        b.s.prelude.push(Op::Subscribe { store: s, sub });
+    }
     let racing_stop = knob(raw, 5) % 4 == 0;
     let mut added = 0;
     let mut nsub = 0;
@@ -81,6 +88,9 @@ pub fn check(scn: &Scenario, h: &History) -> Outcome {
         }
         let block = scn.stores[s].policy == Pol::Block;
         let runs = &p.runs[s];
+        if scn.stores[s].reducers.is_empty() {
+            out.class("store-created-without-reducer");
+        }
         // (i) exactly once for accepted actions under the blocking policy
         if block {
             for disp in d.disps.iter().filter(|x| d.store_of_act(x.act) == s && x.ok == Some(true)) {
@@ -150,7 +160,7 @@ pub fn check(scn: &Scenario, h: &History) -> Outcome {
 
 pub static PROFILE: Profile = Profile {
     id: "C01",
-    rule: "proptest scenarios: 1-4 producer threads, 1-3 build-time reducers (+ up to 2 added at run time), Dispatch/Keep mixes, effects incl. follow-up actions, vetoing middleware, capacity 1-16, all policies, concurrent get_state/add_subscriber, optional racing stop() or close() (followed by the final stop()). Non-trivial = pipeline order interleaves >= 2 producers (more producer switches than producers) OR some action went through a chain of >= 2 reducers containing a Keep; distinct by scenario hash.",
+    rule: "proptest scenarios: 1-4 producer threads, 0-3 build-time reducers (0 = a store created without a reducer, then observed through one permanent subscriber; + up to 2 added at run time), Dispatch/Keep mixes, effects incl. follow-up actions, vetoing middleware, capacity 1-16, all policies, concurrent get_state/add_subscriber, optional racing stop() or close() (followed by the final stop()). Non-trivial = pipeline order interleaves >= 2 producers (more producer switches than producers) OR some action went through a chain of >= 2 reducers containing a Keep; distinct by scenario hash.",
     raw,
     build,
     check,
